@@ -5,12 +5,18 @@ import json, os, subprocess, sys, glob, shutil, time
 
 V = os.path.dirname(os.path.dirname(os.path.abspath(__file__)))
 extra = {"C01-m1": ["C07"], "C02-m2": ["C17"], "C11-m2": ["C19"], "C16-m1": ["C12"], "C03-m2": ["C12"], "C12-m2": ["C08"], "C04-m3": ["C13"], "C12-m4": ["C13"], "C01-m5": ["C17"], "C01-m6": ["C10"], "C04-m6": ["C13"], "C09-m5": ["C14"], "C20-m3": ["C14"], "C02-m3": ["C16"], "C01-m7": ["C07"], "C16-m7": ["C04"], "C02-m8": ["C18"], "C11-m7": ["C15"], "C15-m8": ["C14"], "C01-m9": ["C07", "C08"], "C01-m10": ["C12"], "C07-m10": ["C18"], "C19-m9": ["C13"], "C11-m10": ["C12"], "C15-m9": ["C14"], "C13-m10": ["C18"], "C10-m9": ["C16"], "C02-m9": ["C16"], "C01-m11": ["C18"], "C01-m12": ["C11"], "C03-m11": ["C13"], "C12-m11": ["C01"], "C14-m11": ["C15"], "C07-m11": ["C08"]}
-only = sys.argv[1:]
-out = {}
-for d in sorted(glob.glob(os.path.join(V, "seeded", "C*-m*"))):
+extra.update({"C02-m11": ["C16"], "C04-m13": ["C09"], "C08-m11": ["C09", "C12"], "C12-m13": ["C18"], "C03-m13": ["C12"], "C01-m13": ["C12", "C17"], "C11-m12": ["C03"], "C14-m14": ["C15"],
+              "C01-m14": ["C07"], "C08-m12": ["C09"], "C12-m14": ["C19", "C17"], "C07-m14": ["C10"]})
+args = sys.argv[1:]
+jobs = 1
+if args and args[0] == "--jobs":
+    jobs = int(args[1])
+    args = args[2:]
+only = args
+
+
+def one(d):
     name = os.path.basename(d)
-    if only and name not in only:
-        continue
     prop = name.split("-")[0]
     wt = "/tmp/wt/matrix-%s" % name
     subprocess.run("git -C /repo worktree remove --force %s" % wt, shell=True, stdout=subprocess.DEVNULL, stderr=subprocess.DEVNULL)
@@ -32,9 +38,17 @@ for d in sorted(glob.glob(os.path.join(V, "seeded", "C*-m*"))):
                 shutil.rmtree(outdir, ignore_errors=True)
     finally:
         subprocess.run("git -C /repo worktree remove --force %s" % wt, shell=True, stdout=subprocess.DEVNULL, stderr=subprocess.DEVNULL)
-    out[name] = res
     json.dump(res, open(os.path.join(d, "detection.json"), "w"), indent=1)
     print(name, {k: (v["exit"], v["violations"]) if isinstance(v, dict) else v for k, v in res.items()}, flush=True)
+    return name, res
+
+
+dirs = [d for d in sorted(glob.glob(os.path.join(V, "seeded", "C*-m*"))) if not only or os.path.basename(d) in only]
+if jobs > 1:
+    from multiprocessing.pool import ThreadPool
+    out = dict(ThreadPool(jobs).map(one, dirs))
+else:
+    out = dict(one(d) for d in dirs)
 mp = os.path.join(V, "selftest", "matrix.json")
 if only and os.path.exists(mp):
     full = json.load(open(mp))
